@@ -3,8 +3,12 @@
    client operation the network is drained in global FIFO order (quiescence). *)
 open Conv
 open Pres
+open PresStuckC10
 
+(* state of Sys/Pres.v + the stuck sessions (Sys/PresStuckC10.v); without clog ops xstep_c10x = Pres.step
+   (theorem c10_stuck_conservative) *)
 let st : state ref = ref init
+let stuck_c10x_ids : BinNums.coq_N list ref = ref []
 let su : (int * int) list ref = ref []
 let opi = ref 0
 let fuel = nat_of_int 100000
@@ -83,16 +87,17 @@ let key_of (t : tname) = match t with
 
 let handle (w : string list) : string =
   match w with
-  | "scn" :: id :: _ -> st := init; su := []; opi := 0; "scn " ^ id
+  | "scn" :: id :: _ -> st := init; stuck_c10x_ids := []; su := []; opi := 0; "scn " ^ id
   | ["sess"; sid; u] -> su := (int_of_string sid, int_of_string u) :: !su; ""
   | "end" :: _ -> "end"
   | "op" :: kind :: a ->
     incr opi;
     let outs = ref [] in
-    let do_op (o : op) =
-      let (s1, o1) = step !st o in
-      let (s2, o2) = drain fuel s1 in
-      st := s2; outs := !outs @ o1 @ o2 in
+    let do_xop (o : xop_c10x) =
+      let (s1, o1) = xstep_c10x (!st, !stuck_c10x_ids) o in
+      let ((s2, k2), o2) = xdrain_c10x fuel s1 in
+      st := s2; stuck_c10x_ids := k2; outs := !outs @ o1 @ o2 in
+    let do_op (o : op) = do_xop (XOp o) in
     let n i = n_of_string (List.nth a i) in
     let sid_user i = n_of_int (user_of (int_of_string (List.nth a i))) in
     let flag i = List.length a > i && List.nth a i = "1" in
@@ -111,6 +116,8 @@ let handle (w : string list) : string =
        let w = (match List.nth a 2 with "kp" -> WIKp | "read" -> WIRead | "recv" -> WIRecv | _ -> WOther) in
        do_op (Note (n 0, sid_user 0, parse_ref (List.nth a 1), w, z_of_string (List.nth a 3)))
      | "delmsg" -> do_op (DelMsg (n 0, parse_ref (List.nth a 1), flag 2))
+     | "clog" -> do_xop (XClog (n 0))
+     | "unclog" -> do_xop (XUnclog (n 0))
      | "unload" -> do_op (Unload (parse_abs (List.nth a 0)))
      | "unload1" -> do_op (UnloadHub (parse_abs (List.nth a 0)))
      | "unload2" -> do_op (UnloadOff (parse_abs (List.nth a 0)))
